@@ -2618,6 +2618,8 @@ impl LpgStore {
         // Compute total counts
         stats.total_nodes = self.node_count() as u64;
         stats.total_edges = self.edge_count() as u64;
+        #[cfg(grafeo_verif)]
+        grafeo_common::verif::yield_point("store.stats.after_counts");
 
         // Compute per-label statistics
         let id_to_label = self.id_to_label.read();
@@ -2756,6 +2758,8 @@ impl LpgStore {
                 return id;
             }
         }
+        #[cfg(grafeo_verif)]
+        grafeo_common::verif::yield_point("store.label_id.after_fast_path");
 
         let mut label_to_id = self.label_to_id.write();
         let mut id_to_label = self.id_to_label.write();
@@ -2781,6 +2785,8 @@ impl LpgStore {
                 return id;
             }
         }
+        #[cfg(grafeo_verif)]
+        grafeo_common::verif::yield_point("store.edge_type_id.after_fast_path");
 
         let mut type_to_id = self.edge_type_to_id.write();
         let mut id_to_type = self.id_to_edge_type.write();
